@@ -709,13 +709,15 @@ Proof. repeat split; vm_compute; reflexivity. Qed.
    Seek to the declared end of every descriptor -- is equal, as a computation in the iterator monad and on every iterator
    whose bytes are in 0..255, to the definition that go/gen (psigen.go) translates from the CURRENT source of
    parseDescriptors into Gen/PsiGen.v, its 23 Section Variables newDescriptor* instantiated with the body parsers of
-   Model/Desc.v; thirteen of those body parsers and the two BCD duration parsers of dvb.go are regenerated as well and
-   proved equal one by one (the others -- AC-3, enhanced AC-3, extended event, extension, ISO 639, local time offset,
-   parental rating, subtitling, teletext, VBI data -- stay tied by the correspondence runs only).  The model's loop runs
-   on offsetEnd - offset + 1 rounds of fuel, the generated one on input length + 1: the proof shows that both are enough.
-   An edit of parseDescriptors -- the loop length masked with 0x3, the Seek made conditional, a case dropped --
-   regenerates Gen/PsiGen.v and this theorem (Proofs/PsiGenDesc.v) stops checking. *)
-Require Import Model.Dvb Gen.PsiGen Proofs.ParseGenBits Proofs.PsiGenSim Proofs.PsiGenDesc.
+   Model/Desc.v; 21 of those body parsers (all but the extension descriptor's tag switch -- its supplementary-audio body
+   is covered -- and the ISO 639 descriptor, which slice with run-time bounds) and the two BCD duration parsers of dvb.go
+   are regenerated as well and proved equal one by one, item loops and optional bytes included.  The model's loops run
+   on offsetEnd - offset + 1 rounds of fuel, the generated ones on input length + 1: the proofs show that both are enough.
+   An edit of parseDescriptors -- the loop length masked with 0x3, the Seek made conditional, a case dropped -- or of a
+   body parser regenerates Gen/PsiGen.v and this theorem (Proofs/PsiGenDesc.v, PsiGenDesc2.v) stops checking; so does a
+   NextBytes that becomes a NextBytesNoCopy where the model copies the slice because the result retains it (the two have
+   the same meaning in the iterator monad -- aliasing is C16's subject -- but the proof scripts insist on it). *)
+Require Import Model.Dvb Gen.PsiGen Proofs.ParseGenBits Proofs.PsiGenSim Proofs.PsiGenDesc Proofs.PsiGenDesc2.
 Theorem C14_loop_is_source :
   same_on_bytes parse_descriptors
     (PsiGen.parseDescriptors
@@ -725,37 +727,49 @@ Theorem C14_loop_is_source :
        new_descriptor_parental_rating new_descriptor_private_data_indicator new_descriptor_private_data_specifier
        new_descriptor_registration new_descriptor_service new_descriptor_short_event new_descriptor_stream_identifier
        new_descriptor_subtitling new_descriptor_teletext new_descriptor_unknown new_descriptor_vbi_data) /\
+  (forall e, same_on_bytes (new_descriptor_ac3 e) (PsiGen.newDescriptorAC3 e)) /\
   same_on_bytes new_descriptor_avc_video PsiGen.newDescriptorAVCVideo /\
-  same_on_bytes new_descriptor_data_stream_alignment PsiGen.newDescriptorDataStreamAlignment /\
-  same_on_bytes new_descriptor_maximum_bitrate PsiGen.newDescriptorMaximumBitrate /\
-  same_on_bytes new_descriptor_private_data_indicator PsiGen.newDescriptorPrivateDataIndicator /\
-  same_on_bytes new_descriptor_private_data_specifier PsiGen.newDescriptorPrivateDataSpecifier /\
-  same_on_bytes new_descriptor_stream_identifier PsiGen.newDescriptorStreamIdentifier /\
-  (forall t l, same_on_bytes (new_descriptor_unknown t l) (PsiGen.newDescriptorUnknown t l)) /\
-  (forall e, same_on_bytes (new_descriptor_registration e) (PsiGen.newDescriptorRegistration e)) /\
-  (forall e, same_on_bytes (new_descriptor_network_name e) (PsiGen.newDescriptorNetworkName e)) /\
   (forall e, same_on_bytes (new_descriptor_component e) (PsiGen.newDescriptorComponent e)) /\
   (forall e, same_on_bytes (new_descriptor_content e) (PsiGen.newDescriptorContent e)) /\
+  same_on_bytes new_descriptor_data_stream_alignment PsiGen.newDescriptorDataStreamAlignment /\
+  (forall e, same_on_bytes (new_descriptor_enhanced_ac3 e) (PsiGen.newDescriptorEnhancedAC3 e)) /\
+  same_on_bytes new_descriptor_extended_event PsiGen.newDescriptorExtendedEvent /\
+  (forall e, same_on_bytes (new_descriptor_extension_supplementary_audio e) (PsiGen.newDescriptorExtensionSupplementaryAudio e)) /\
+  (forall e, same_on_bytes (new_descriptor_local_time_offset e)
+               (PsiGen.newDescriptorLocalTimeOffset Model.Dvb.parse_dvb_duration_minutes Model.Dvb.parse_dvb_time e)) /\
+  same_on_bytes new_descriptor_maximum_bitrate PsiGen.newDescriptorMaximumBitrate /\
+  (forall e, same_on_bytes (new_descriptor_network_name e) (PsiGen.newDescriptorNetworkName e)) /\
+  (forall e, same_on_bytes (new_descriptor_parental_rating e) (PsiGen.newDescriptorParentalRating e)) /\
+  same_on_bytes new_descriptor_private_data_indicator PsiGen.newDescriptorPrivateDataIndicator /\
+  same_on_bytes new_descriptor_private_data_specifier PsiGen.newDescriptorPrivateDataSpecifier /\
+  (forall e, same_on_bytes (new_descriptor_registration e) (PsiGen.newDescriptorRegistration e)) /\
   same_on_bytes new_descriptor_service PsiGen.newDescriptorService /\
   same_on_bytes new_descriptor_short_event PsiGen.newDescriptorShortEvent /\
+  same_on_bytes new_descriptor_stream_identifier PsiGen.newDescriptorStreamIdentifier /\
+  (forall e, same_on_bytes (new_descriptor_subtitling e) (PsiGen.newDescriptorSubtitling e)) /\
+  (forall e, same_on_bytes (new_descriptor_teletext e) (PsiGen.newDescriptorTeletext e)) /\
+  (forall t l, same_on_bytes (new_descriptor_unknown t l) (PsiGen.newDescriptorUnknown t l)) /\
+  (forall e, same_on_bytes (new_descriptor_vbi_data e) (PsiGen.newDescriptorVBIData e)) /\
   same_on_bytes Model.Dvb.parse_dvb_duration_minutes PsiGen.parseDVBDurationMinutes /\
   same_on_bytes Model.Dvb.parse_dvb_duration_seconds PsiGen.parseDVBDurationSeconds.
 Proof. exact descriptor_loop_is_source. Qed.
 Print Assumptions C14_loop_is_source.
-(* the translated parseDescriptors runs: the written loop of the six-descriptor example above (63 bytes behind the
-   length field), decoded by the generated loop with the model's bodies, gives what the model gives: six descriptors *)
+(* the translated parsers run: the written loop of the six-descriptor example above (63 bytes behind the length field:
+   AC-3, teletext, an empty content descriptor, VBI data, local time offset, extended event), decoded by the generated
+   loop with the GENERATED body parsers where they exist, gives what the model gives: six descriptors *)
 Example C14_loop_is_source_inhabited :
   match enc_descriptors_with_length ex_all with
   | Ok its =>
       let bs := bytes_of_items its in
       andb (bytes_okb bs)
            (match run_iter (PsiGen.parseDescriptors
-                   new_descriptor_ac3 new_descriptor_avc_video new_descriptor_component new_descriptor_content
-                   new_descriptor_data_stream_alignment new_descriptor_enhanced_ac3 new_descriptor_extended_event new_descriptor_extension
-                   new_descriptor_iso639 new_descriptor_local_time_offset new_descriptor_maximum_bitrate new_descriptor_network_name
-                   new_descriptor_parental_rating new_descriptor_private_data_indicator new_descriptor_private_data_specifier
-                   new_descriptor_registration new_descriptor_service new_descriptor_short_event new_descriptor_stream_identifier
-                   new_descriptor_subtitling new_descriptor_teletext new_descriptor_unknown new_descriptor_vbi_data) bs,
+                   PsiGen.newDescriptorAC3 PsiGen.newDescriptorAVCVideo PsiGen.newDescriptorComponent PsiGen.newDescriptorContent
+                   PsiGen.newDescriptorDataStreamAlignment PsiGen.newDescriptorEnhancedAC3 PsiGen.newDescriptorExtendedEvent new_descriptor_extension
+                   new_descriptor_iso639 (PsiGen.newDescriptorLocalTimeOffset PsiGen.parseDVBDurationMinutes Model.Dvb.parse_dvb_time)
+                   PsiGen.newDescriptorMaximumBitrate PsiGen.newDescriptorNetworkName
+                   PsiGen.newDescriptorParentalRating PsiGen.newDescriptorPrivateDataIndicator PsiGen.newDescriptorPrivateDataSpecifier
+                   PsiGen.newDescriptorRegistration PsiGen.newDescriptorService PsiGen.newDescriptorShortEvent PsiGen.newDescriptorStreamIdentifier
+                   PsiGen.newDescriptorSubtitling PsiGen.newDescriptorTeletext PsiGen.newDescriptorUnknown PsiGen.newDescriptorVBIData) bs,
                   run_iter parse_descriptors bs with
             | Ok a, Ok b => andb (length a =? 6)%nat (length b =? 6)%nat
             | _, _ => false
